@@ -15,6 +15,8 @@ EXTENDS Integers, Sequences, FiniteSets, TLC, Json
 CONSTANTS Conventions,   \* set of <<decimal separator, thousands separator>>, "" = no thousands separator
           Integrals,     \* integral parts (naturals)
           Fractions,     \* fractions as digit strings: <<>>, <<5>>, <<0, 5>>, <<5, 0>> ...
+          RefusesForeignPoint,  \* TRUE (shipped): a "." that is neither the decimal nor the thousands separator of the data
+                         \* format is refused; FALSE: pinned code, it is handed to the number parser as a decimal point (D41)
           Rules          \* set of rules: <<>> or sequence of <<lo, hi>> over scaled integers, limit <<>> = open
 
 None == <<>>
@@ -38,16 +40,20 @@ vars == <<conv, neg, integral, fraction, grouped, mutation, rule, cell, rest, tr
 Spelled(cv, ng, ip, fr, gr) ==
   (IF ng THEN <<"-">> ELSE <<>>) \o (IF gr /\ cv[2] # "" THEN Grouped(DigitsOf(ip), cv[2]) ELSE DigitsOf(ip))
   \o (IF fr = <<>> THEN <<>> ELSE <<cv[1]>> \o FracChars(fr))
-Mutations == {"none", "twoDs", "tsAfterDs", "letter"}
+\* the separator of the OTHER convention in place of the decimal separator: "," <-> "."
+Foreign(cv) == IF cv[1] = "," THEN "." ELSE ","
+Mutations == {"none", "twoDs", "tsAfterDs", "letter", "foreignDs"}
 Mutated(cv, text, mu) ==
   CASE mu = "none" -> text
     [] mu = "twoDs" -> text \o <<cv[1], "0">>                       \* a second decimal separator
     [] mu = "tsAfterDs" -> text \o <<cv[2], "0", "0", "0">>          \* thousands separator after the decimal separator
     [] mu = "letter" -> [text EXCEPT ![Len(text)] = "x"]
+    [] mu = "foreignDs" -> [i \in 1..Len(text) |-> IF text[i] = cv[1] THEN Foreign(cv) ELSE text[i]]   \* written for another locale
 Init == /\ conv \in Conventions /\ neg \in BOOLEAN /\ integral \in Integrals /\ fraction \in Fractions
         /\ grouped \in BOOLEAN /\ rule \in Rules
         /\ mutation \in Mutations
         /\ (mutation = "twoDs" => fraction # <<>>) /\ (mutation = "tsAfterDs" => (fraction # <<>> /\ conv[2] # ""))
+        /\ (mutation = "foreignDs" => (fraction # <<>> /\ conv[2] # Foreign(conv)))   \* (else it would be a thousands separator)
         /\ (grouped => conv[2] # "")
         /\ ~(neg /\ integral = 0 /\ FracScaled(fraction) = 0)
         /\ cell = Mutated(conv, Spelled(conv, neg, integral, fraction, grouped), mutation)
@@ -64,6 +70,8 @@ ProcessChar ==
      ELSE IF conv[2] # "" /\ c = conv[2]
      THEN IF foundDs THEN outcome' = <<"reject">> /\ UNCHANGED <<rest, translated, foundDs>>
           ELSE rest' = Tail(rest) /\ UNCHANGED <<translated, foundDs, outcome>>
+     ELSE IF RefusesForeignPoint /\ c = "." /\ conv[1] # "."
+     THEN outcome' = <<"reject">> /\ UNCHANGED <<rest, translated, foundDs>>
      ELSE translated' = Append(translated, c) /\ rest' = Tail(rest) /\ UNCHANGED <<foundDs, outcome>>
 
 \* decimal.Decimal for plain literals: optional minus, digits with at most one point, at least one digit
